@@ -50,6 +50,48 @@ fn pick_final(rng: &mut Rng, pre: u64) -> u64 {
     }
 }
 
+/// String literals of the code under test (1..8 characters), harvested at run time: tokens that coincide with
+/// a constant of the implementation (a prefix, a separator, a sentinel) are the interesting ones.
+pub fn dictionary() -> Vec<String> {
+    let repo = std::env::var("VERIF_REPO_PATH").unwrap_or_else(|_| "/repo".into());
+    let mut out: std::collections::BTreeSet<String> = ["AC", "ac", "A", "C", "0", "00", "000000", "FFFF", "ffff", " ", "\r", "\n", "-", "/"].iter().map(|s| s.to_string()).collect();
+    for dir in ["zvt_feig_terminal/src", "zvt/src", "zvt/src/feig", "zvt_builder/src"] {
+        let Ok(rd) = std::fs::read_dir(format!("{repo}/{dir}")) else { continue };
+        for e in rd.flatten() {
+            let Ok(text) = std::fs::read_to_string(e.path()) else { continue };
+            // literals in code, not in comments or tests' long strings
+            for line in text.lines().filter(|l| !l.trim_start().starts_with("//")) {
+                let mut rest = line;
+                while let Some(i) = rest.find('"') {
+                    let after = &rest[i + 1..];
+                    let Some(j) = after.find('"') else { break };
+                    let lit = &after[..j];
+                    if (1..=8).contains(&lit.chars().count()) && !lit.contains('\\') && !lit.contains('{') && lit.chars().all(|c| (c as u32) >= 0x20 && (c as u32) < 0x7f) {
+                        out.insert(lit.to_string());
+                    }
+                    rest = &after[j + 1..];
+                }
+            }
+        }
+    }
+    out.into_iter().take(400).collect()
+}
+
+fn pick_token_with(rng: &mut Rng, dict: &[String]) -> String {
+    if !dict.is_empty() && rng.chance(1, 3) {
+        let w = rng.pick(dict).clone();
+        let tail = pick_token(rng);
+        let tail: String = tail.chars().take(12).collect();
+        return match rng.below(4) {
+            0 => w,
+            1 => format!("{w}{tail}"),
+            2 => format!("{tail}{w}"),
+            _ => format!("{w}{w}{tail}"),
+        };
+    }
+    pick_token(rng)
+}
+
 fn pick_token(rng: &mut Rng) -> String {
     let n = match rng.below(8) {
         0 => 0,
@@ -96,23 +138,25 @@ fn num(v: &Val, f: &str) -> Option<u128> {
 
 pub fn run(ctx: &Ctx) -> i32 {
     let mut report = ctx.report("C08", "exploration");
-    report.rule = "scenarios begin(token) -> commit(token, final) (and interleaved pairs of transactions) against the simulated terminal: configured pre-authorisation amount over {0, 1, 10^k-1/10^k/10^k+1, 10^12-1, random}, final amount over {0, pre-1, pre, pre+1, 2^32-1, 2^32, 2^32+1, u64::MAX, u64::MAX-1, 2^63+pre, random}, currency 0..9999, tokens = CP437 text (any byte, no trailing NUL) of 0..200 characters, first receipt number 1..9999, the terminal's status fields over their full BCD ranges or absent; in a quarter of the scenarios the link fails once during the reservation (close/garbage/silence/NACK at a random packet), so that the client re-sends it and the terminal issues a second receipt number. Oracle: the requests the terminal decodes with the reference codec: Reservation{amount=cfg, currency=cfg, reference 1F63=token}; PartialReversal{87=issued receipt, 04=max(pre-final,0) computed in u128, 49=cfg, reference 1F63=token} (payment type and reference prefix are recorded, not judged: the statement does not mention them); ledger balance reserved-released=min(pre,final); summary fields numerically equal to the last status information. Non-trivial = scenario in which the commit reached the terminal; distinct by hash of (config, token, final, receipt, status fields).".into();
+    report.rule = "scenarios begin(token) -> commit(token, final) (and interleaved pairs of transactions) against the simulated terminal: configured pre-authorisation amount over {0, 1, 10^k-1/10^k/10^k+1, 10^12-1, random}, final amount over {0, pre-1, pre, pre+1, 2^32-1, 2^32, 2^32+1, u64::MAX, u64::MAX-1, 2^63+pre, random}, currency 0..9999, tokens = CP437 text (any byte, no trailing NUL) of 0..200 characters, a third of them built around string literals harvested from the repository's own sources (a token equal to / starting with / ending in a constant of the implementation), first receipt number 1..9999, the terminal's status fields over their full BCD ranges or absent; in a quarter of the scenarios the link fails once during the reservation (close/garbage/silence/NACK at a random packet), so that the client re-sends it and the terminal issues a second receipt number. Oracle: the requests the terminal decodes with the reference codec: Reservation{amount=cfg, currency=cfg, reference 1F63=token}; PartialReversal{87=issued receipt, 04=max(pre-final,0) computed in u128, 49=cfg, reference 1F63=token} (payment type and reference prefix are recorded, not judged: the statement does not mention them); ledger balance reserved-released=min(pre,final); summary fields numerically equal to the last status information. Non-trivial = scenario in which the commit reached the terminal; distinct by hash of (config, token, final, receipt, status fields).".into();
     report.exhaustive = Some(false);
     report.assumptions = vec!["string formatting of date/time/terminal id beyond numeric equality is not judged".into(), "64-bit usize (amounts are usize in the configuration)".into()];
     let schema = Arc::new(refcodec::zvt_schema());
     let n = ctx.by(6_000usize, 1_000_000usize);
     let threads = ctx.threads;
     let seed = ctx.seed;
+    let dict = dictionary();
+    report.extra.insert("token_dictionary_words_from_the_sources".into(), json!(dict.len()));
     sharded(&mut report, threads, |shard, r| {
         let mut rng = Rng::derive(seed, 0xC08 + shard as u64);
         for _ in 0..n / threads {
-            one(r, &mut rng, &schema);
+            one(r, &mut rng, &schema, &dict);
         }
     });
     report.finish()
 }
 
-fn one(r: &mut Report, rng: &mut Rng, schema: &Arc<refcodec::layout::Schema>) {
+fn one(r: &mut Report, rng: &mut Rng, schema: &Arc<refcodec::layout::Schema>, dict: &[String]) {
     let pre = pick_pre(rng);
     let currency = match rng.below(6) {
         0 => 0,
@@ -123,8 +167,8 @@ fn one(r: &mut Report, rng: &mut Rng, schema: &Arc<refcodec::layout::Schema>) {
     } as usize;
     let two = rng.chance(1, 4);
     let cfg = ClientCfg { pre_amount: pre as usize, currency, max_tx: if two { 2 } else { 1 }, password: rng.below(1_000_000) as usize, ..ClientCfg::default() };
-    let t1 = pick_token(rng);
-    let mut t2 = pick_token(rng);
+    let t1 = pick_token_with(rng, dict);
+    let mut t2 = pick_token_with(rng, dict);
     if t2 == t1 {
         t2.push('2');
     }
